@@ -69,7 +69,29 @@ AgainStep ==
     [] ph \in {6, 7, 8, 9} -> FFetch \/ FPublish
     [] OTHER -> MCNext
 
+\* Fam = "fallback" (round 5): a leader stores records nobody / not everybody has replicated and dies (its HW,
+\* or its checkpoint, is still -1 - or above, when a commit and a Checkpoint came first); somebody else is
+\* elected, the dead one leaves the in-sync set, the new leader stores and commits other records; the old
+\* leader (or another crashed replica, or a follower that applies the leader change late) rejoins while its
+\* leader epoch offset requests go unanswered - the new leader is serving (HWFallback) or down - and reconciles
+\* by its HW: -1 = the log is emptied; then it fetches and adopts the leader's HW, is re-admitted, elected
+FCheckpoint == \E r \in R : MCCheckpoint(r)
+FCrashLeader == MCCrash(Leader)
+FFallback == \E r \in R : MCRestart(r, FALSE) \/ MCApplyMeta(r, FALSE)
+SomeDown == \E r \in R : ~up[r]
+FallbackStep ==
+  CASE ph = 0 -> FPublish
+    [] ph = 1 -> FPublish \/ FFetch \/ FCrashLeader
+    [] ph = 2 -> IF nCrash = 0 THEN FCrashLeader \/ FFetch \/ FCheckpoint ELSE FElect
+    [] ph = 3 -> IF nCrash = 0 THEN FCrashLeader ELSE IF nElect = 0 THEN FElect ELSE FShrink \/ FPublish
+    [] ph = 4 -> IF nElect = 0 THEN FElect ELSE FShrink \/ FPublish \/ FFetch
+    [] ph \in {5, 6, 7} -> FShrink \/ FPublish \/ FFetch
+    [] ph = 8 -> FFallback \/ FFetch
+    [] ph = 9 -> IF SomeDown \/ lagging # {} THEN FFallback ELSE FFetch \/ FPublish \/ FExpand
+    [] ph \in {10, 11, 12, 13} -> FFetch \/ FPublish \/ FExpand
+    [] OTHER -> MCNext
+
 FamInit == MCInit /\ ph = 0
-FamNext == (CASE Fam = "isr" -> IsrStep [] Fam = "late" -> LateStep [] OTHER -> AgainStep) /\ ph' = ph + 1
+FamNext == (CASE Fam = "isr" -> IsrStep [] Fam = "late" -> LateStep [] Fam = "fallback" -> FallbackStep [] OTHER -> AgainStep) /\ ph' = ph + 1
 FamSpec == FamInit /\ [][FamNext]_famvars
 =============================================================================
